@@ -321,6 +321,8 @@ pub enum E {
     ListE(Vec<E>),
     /// pattern predicate: exists a match of the path extending the current row
     PatExists(Box<PathPat>),
+    /// searched CASE: WHEN cond THEN value … [ELSE value] END
+    Case(Vec<(E, E)>, Option<Box<E>>),
 }
 
 #[derive(Clone, Debug, Serialize, Deserialize, PartialEq)]
@@ -478,6 +480,17 @@ pub fn render_expr(e: &E) -> String {
         }
         E::ListE(items) => format!("[{}]", items.iter().map(render_expr).collect::<Vec<_>>().join(", ")),
         E::PatExists(p) => render_path(p),
+        E::Case(arms, els) => {
+            let mut s = String::from("CASE");
+            for (c, v) in arms {
+                s.push_str(&format!(" WHEN {} THEN {}", render_expr(c), render_expr(v)));
+            }
+            if let Some(e) = els {
+                s.push_str(&format!(" ELSE {}", render_expr(e)));
+            }
+            s.push_str(" END");
+            s
+        }
     }
 }
 
@@ -662,6 +675,7 @@ pub fn inline_params(q: &Query, params: &BTreeMap<String, V>) -> Query {
             E::Agg(k, d, a) => E::Agg(k.clone(), *d, a.as_ref().map(|x| b(x))),
             E::ListE(items) => E::ListE(items.iter().map(|x| fe(x, p)).collect()),
             E::PatExists(pp) => E::PatExists(Box::new(fp(pp, p))),
+            E::Case(arms, els) => E::Case(arms.iter().map(|(c, v)| (fe(c, p), fe(v, p))).collect(), els.as_ref().map(|x| b(x))),
         }
     }
     fn fnode(n: &NodePat, p: &BTreeMap<String, V>) -> NodePat {
